@@ -1,6 +1,7 @@
 """C14 - sna2ctl emits a complete, ordered, non-overlapping control file (DESIGN §4 C14)."""
 import multiprocessing as mp
 import os
+import re
 
 from ..lib import cbuild, tlc
 from ..lib.common import workdir, rmworkdir, seed, log, MachineryError
@@ -11,6 +12,33 @@ PID = 'C14'
 FT_KEYS = ('kind', 'len', 'isend', 'pre', 'from', 'limit', 'ctl', 'n', 'clip', 'post', 'ret', 'exc')
 OUT_KEYS = ('kind', 'strict', 'start', 'end', 'dirs', 'subs', 'map', 'iaddr', 'warn', 'timeout', 'err', 'skoolerr', 'mem', 'ignored',
             'binstart', 'bin', 'stmts')
+
+
+def out_key(c, clause):
+    """The key of a failed sna2ctl run: image class and clause, or one of the narrower input classes of the open findings."""
+    key = 'out:%s:%s' % (c['image_kind'], clause)
+    dirs = c['dirs']
+    if clause == 'terminator' and c['end'] < 65536 and any(d == ['i', c['end']] for d in dirs) and dirs[-1][1] > c['end'] \
+            and all(d[0] == 'U' for d in dirs[dirs.index(['i', c['end']]) + 1:]):
+        # the terminating directive is there, followed by a 'U' (the generator's internal 'unknown' mark) beyond the end address
+        return 'out:terminator:U-directive-beyond-end'
+    if clause == 'overlap-warning':
+        m = re.search(r'Instruction at (\d+) overlaps the following instruction at (\d+)', c.get('warning', ''))
+        if not m:
+            return key
+        x, y = int(m.group(1)), int(m.group(2))
+        if x not in c['map'] and y in c['map']:
+            # an entry point that sna2ctl's heuristics created in UNEXECUTED bytes runs into an executed instruction
+            return 'out:overlap-warning:unexecuted-entry-overlaps-executed'
+        if c.get('rst_undeclared') and x not in c['map']:
+            # the program's RST routines take inline arguments that sna2ctl is not told about (no -r, or another RSTHandlerConfig
+            # than what the program does): it reads them as instructions, which are not the executed ones
+            return 'out:overlap-warning:rst-arguments-not-as-configured'
+        e, ln = ctldrv.is_end_at(c['image'], x - c['org'])
+        if c.get('rst_endlike') and c['map'] and x in c['map'] and e and ln > y - x:
+            # -r and -m, an argument (as configured) that reads as a jump/return: a directive inside an EXECUTED multi-byte jump/return
+            return 'out:overlap-warning:rst-argument-walk:directive-inside-executed-jump'
+    return key
 
 
 def run(tier):
@@ -35,10 +63,13 @@ def run(tier):
         groups = [list(range(g, min(g + per, 1792))) for g in range(0, 1792, per)]
         if tier != 'quick':
             groups += [list(range(g, 1792, 256)) for g in range(256)]
-        outs = pool.map(ctldrv.out_cases, [(sd * 59 + k, nout, wd, groups[k::16], [ctldrv.PROBE_UNEXECUTED_ENTRY] if k == 0 else [])
+        outs = pool.map(ctldrv.out_cases, [(sd * 59 + k, nout, wd, groups[k::16], [ctldrv.PROBE_UNEXECUTED_ENTRY, ctldrv.PROBE_U_BEYOND_END, ctldrv.PROBE_RST_ARG_WALK] if k == 0 else [])
                                            for k in range(16)])
+        # programs whose RST routines take inline arguments with opcode-like values (sna2ctl -r, with and without -m)
+        nrst = 60 if tier == 'quick' else 900
+        rsts = pool.map(ctldrv.rst_cases, [(sd * 61 + k, nrst, wd) for k in range(16)])
     ft = [c for p in fts for c in p]
-    out = [c for p in outs for c in p]
+    out = [c for p in outs for c in p] + [c for p in rsts for c in p]
     log('C14: %d find-terminal calls, %d sna2ctl runs' % (len(ft), len(out)))
     cases = [{k: c[k] for k in FT_KEYS} for c in ft] + [{k: c[k] for k in OUT_KEYS} for c in out]
     full = ft + out
@@ -51,10 +82,24 @@ def run(tier):
     rep.extra['opcode_slot_sweep_images'] = sum(1 for c in out if c['image_kind'] == 'sweep')
     if with_map < (len(out) - rep.extra['opcode_slot_sweep_images']) // 4 or with_sub == 0:
         raise MachineryError('vacuous C14 run: %d runs with code map, %d with sub-blocks' % (with_map, with_sub))
+    # RST arguments: runs with -r and -m in which an executed RST has handled arguments that .. (see ctldrv.rst_stats)
+    rm = [c for c in out if c['image_kind'] == 'rst' and c['map'] and ('-r' in c['args'] or '--handle-rst' in c['args'])]
+    rm_ids = set(id(c) for c in rm)
+    rep.extra['rst_runs'] = sum(1 for c in out if c['image_kind'] == 'rst')
+    rep.extra['rst_runs_r_and_m_handled_argument'] = sum(1 for c in rm if c['rst_handled'])
+    rep.extra['rst_runs_r_and_m_opcode_like_argument'] = sum(1 for c in rm if c['rst_oplike'])
+    rep.extra['rst_runs_r_and_m_argument_reads_as_jump_or_return'] = sum(1 for c in rm if c['rst_endlike'])
+    rep.extra['rst_runs_r_and_m_argument_jump_ends_inside_next_instruction'] = sum(1 for c in rm if c['rst_sharp'])
+    rep.extra['rst_runs_r_and_m_word_argument'] = sum(1 for c in rm if c['rst_handled'] and ':W' in c['rstcfg'])
+    rep.extra['rst_runs_m_without_r'] = sum(1 for c in out if c['image_kind'] == 'rst' and c['map'] and id(c) not in rm_ids and c['rst_sites'])
+    for k in ('rst_runs_r_and_m_opcode_like_argument', 'rst_runs_r_and_m_argument_jump_ends_inside_next_instruction',
+              'rst_runs_r_and_m_word_argument', 'rst_runs_m_without_r'):
+        if not rep.extra[k]:
+            raise MachineryError('vacuous C14 run: %s = 0' % k)
     for c in ft:
         rep.count(('ft', tuple(c['len']), tuple(c['isend']), str(c['pre']), c['from'], c['limit'], c['ctl']))
     for c in out:
-        rep.count(('out', c['image_kind'], tuple(c['args'][:6]), len(c['map'])))
+        rep.count(('out', c['image_kind'], tuple(c['args'][:6]), len(c['map']), tuple(c['image']) if c['image_kind'] == 'rst' else 0))
     rep.sample({k: ft[0][k] for k in FT_KEYS})
     rep.sample({k: out[0][k] for k in ('start', 'end', 'args', 'dirs', 'map')})
     for i, clause in fails:
@@ -64,13 +109,7 @@ def run(tier):
                           '_find_terminal_instruction(len=%s end=%s ctls=%s from=%d limit=%d ctl=%s) -> %s ret %s: %s'
                           % (c['len'], c['isend'], c['pre'], c['from'], c['limit'], c['ctl'], c['post'], c['ret'], clause), c)
         else:
-            key = 'out:%s:%s' % (c['image_kind'], clause)
-            if clause == 'overlap-warning':
-                import re
-                m = re.search(r'Instruction at (\d+) overlaps the following instruction at (\d+)', c.get('warning', ''))
-                if m and int(m.group(1)) not in c['map'] and int(m.group(2)) in c['map']:
-                    # an entry point that sna2ctl's heuristics created in UNEXECUTED bytes runs into an executed instruction
-                    key = 'out:overlap-warning:unexecuted-entry-overlaps-executed'
+            key = out_key(c, clause)
             rep.violation(key,
                           'sna2ctl %s on %d bytes at %d: %s; directives %s; map %s; %s'
                           % (' '.join(c['args']), len(c['image']), c['org'], clause, c['dirs'][:12], c['map'][:20],
@@ -114,8 +153,8 @@ def replay(path):
             found.append('ft:%s:%s: _find_terminal_instruction(len=%s end=%s ctls=%s from=%d limit=%d ctl=%s) -> %s ret %s'
                          % (c['ctl'], clause, c['len'], c['isend'], c['pre'], c['from'], c['limit'], c['ctl'], c['post'], c['ret']))
         else:
-            found.append('out:%s:%s: sna2ctl %s (map format %s) on %d bytes at %d: directives %s; %s'
-                         % (c['image_kind'], clause, ' '.join(c['args']), c['mapfmt'] or '-', len(c['image']), c['org'], c['dirs'][:12],
+            found.append('%s: sna2ctl %s (map format %s) on %d bytes at %d: directives %s; %s'
+                         % (out_key(c, clause), ' '.join(c['args']), c['mapfmt'] or '-', len(c['image']), c['org'], c['dirs'][:12],
                             c.get('warning', '') or c['err'] or c['skoolerr']))
     rmworkdir('replay-c14')
     return replaylib.verdict(PID, path, found)
